@@ -13,7 +13,7 @@ from vlib import worldops
 
 ID = 'C09'
 LEVEL = 'exploration'
-BUDGET = {'quick': 1500, 'thorough': 6000}
+BUDGET = {'quick': 5000, 'thorough': 10000}
 RULE = ('Hypothesis-generated histories: 1-4 coroutine scripts whose steps are (actions, outcome) with actions in '
         '{start j, kill j (also itself), query state j} and outcome in {yield None/0/negative, yield positive '
         'multiple of 1/8, return v}; external operations start i / kill i (processor or promise) / state i / '
@@ -66,7 +66,9 @@ def strategy():
     op = st.tuples(st.integers(0, 14), st.integers(0, 15)).map(decode_op)
     return st.fixed_dictionaries({
         'scripts': st.lists(st.lists(step, min_size=1, max_size=5), min_size=1, max_size=4),
-        'ops': worldops.chunked(op, 40)})
+        'ops': worldops.chunked(op, 40),
+        # tie mode: every positive wait is 1, so that several coroutines share one wake-up time
+        'sync': st.booleans()})
 
 
 class Run:
@@ -106,6 +108,9 @@ class Run:
     # ---- generator bodies ---------------------------------------------------------------------------
     def body(self, i):
         script = self.case['scripts'][i]
+        if self.case.get('sync'):
+            script = [dict(st_, out=(['y', 1] if st_['out'][0] == 'y' and st_['out'][1] is not None
+                                     and st_['out'][1] > 0 else st_['out'])) for st_ in script]
         for s, step in enumerate(script):
             self.on_step(i, s)
             for act in step['acts']:
